@@ -133,6 +133,23 @@ def check(corpus, fails):
                         pass
                     except Exception as e:
                         fail("C11-%s-exception" % name, "%s: %r: %s: %s | %s" % (phase, q, type(e).__name__, e, traceback.format_exc()[-300:]))
+    # ---- C07: delete_by_query with a parent/child query removes whole groups (NestedParent.deletion_docs): every document of
+    # a group with a live matching child, and nothing else
+    try:
+        q = query.NestedParent(parents_q, query.Term("t", "alfa"))
+        hit = set(d[2] for d in live if d[1] == "child" and d[3] == "alfa")
+        w = ix.writer()
+        n = w.delete_by_query(q)
+        w.commit(merge=False)
+        with ix.searcher() as s:
+            got = sorted(h["k"] for h in s.search(query.Every(), limit=None))
+        exp = sorted(d[0] for d in live if d[2] not in hit)
+        expn = sum(1 for d in live if d[2] in hit)
+        if got != exp or n != expn:
+            fail("C07-nested-delete", "delete_by_query(NestedParent(kind:parent, t:alfa)) left %r, expected %r; returned %r, expected %r"
+                 % (got, exp, n, expn))
+    except Exception as e:
+        fail("C07-nested-delete-exception", "%s: %s | %s" % (type(e).__name__, e, traceback.format_exc()[-300:]))
 
 
 def main():
